@@ -43,13 +43,19 @@ def run(ctx):
         ctx.ob('REGFIRST', 'anchor', False, None, 'SchemaBuilder::find_or_build not found')
     else:
         ctx.touched(fb, len(fb.calls()))
-        ins = [(bb, t) for bb, t in fb.calls() if cname(t).endswith('VacantEntry::<\'a, K, V, A>::insert') or strip_generics(cname(t)).endswith('VacantEntry::insert')]
+        # accepted registration idioms: entry(k) -> Vacant(e) => e.insert(key), or get(&k) / insert(k, key)
+        def on_registry(t, argi=0):
+            return 'already_built_types' in origin(fb, t['args'][argi]).fields
+        vins = [(bb, t) for bb, t in fb.calls() if strip_generics(cname(t)).endswith('VacantEntry::insert')]
+        mins = [(bb, t) for bb, t in fb.calls() if strip_generics(cname(t)).endswith('HashMap::insert') and on_registry(t)]
+        ins = vins + mins
+        keyarg = (lambda t: t['args'][1]) if vins else (lambda t: t['args'][2])
         rec = [(bb, t) for bb, t in fb.calls() if (t.get('callee') or '').endswith('BuildSchema::append_schema')]
         ok = len(ins) == 1 and len(rec) == 1 and fb.dominates(ins[0][0], rec[0][0])
         ctx.ob('REGFIRST', 'insert-dominates-recursion', ok, short_loc(fb.span), 'the key is inserted into already_built_types before T::append_schema runs: %s' % ok)
         okk = False
-        if ins:
-            ko = origin(fb, ins[0][1]['args'][1])
+        if len(ins) == 1:
+            ko = origin(fb, keyarg(ins[0][1]))
             fi = [c for c in ko.calls if strip_generics(cname(c)).endswith('SchemaKey::from_idx')]
             if fi:
                 lo = origin(fb, fi[0]['args'][0])
@@ -60,17 +66,17 @@ def run(ctx):
         ctx.ob('REGFIRST', 'key-is-next-node-index', okk, short_loc(fb.span), 'the key registered is SchemaKey::from_idx(nodes.len()) read before recursing: %s' % okk)
         # the returned key is that key (vacant) or the stored one (occupied)
         ro = return_origin(fb)
-        okr = any(strip_generics(cname(c)).endswith('SchemaKey::from_idx') for c in ro.calls) and any(strip_generics(cname(c)).endswith('OccupiedEntry::get') for c in ro.calls)
+        stored = [c for c in ro.calls if strip_generics(cname(c)).endswith('OccupiedEntry::get') or (strip_generics(cname(c)).endswith('HashMap::get') and on_registry(c))]
+        okr = any(strip_generics(cname(c)).endswith('SchemaKey::from_idx') for c in ro.calls) and bool(stored)
         ctx.ob('REGFIRST', 'returns-registered-key', okr, short_loc(fb.span), 'returns the registered key (new) or the stored key (already built): %s' % okr)
-        # keyed by the TypeLookup type id
-        en = [(bb, t) for bb, t in fb.calls() if strip_generics(cname(t)).endswith('HashMap::entry')]
-        okt = False
-        if en:
-            names = deep_call_names(fb, en[0][1]['args'][1])
-            okt = any(n_.endswith('TypeId::of') for n_ in names) and 'already_built_types' in origin(fb, en[0][1]['args'][0]).fields
-            tid = [t for bb, t in fb.calls() if cname(t).endswith('TypeId::of')]
-            okt = okt and bool(tid) and 'TypeLookup' in ' '.join(tid[0].get('substs', []))
-        ctx.ob('REGFIRST', 'keyed-by-type-lookup', okt, short_loc(fb.span), 'already_built_types is keyed by TypeId::of::<T::TypeLookup>(): %s' % okt)
+        # keyed by the TypeLookup type id: every lookup / registration key comes from TypeId::of::<T::TypeLookup>()
+        keyed = [(t, 1) for bb, t in fb.calls() if strip_generics(cname(t)).endswith(('HashMap::entry', 'HashMap::get', 'HashMap::insert', 'HashMap::contains_key')) and on_registry(t)]
+        tid = [t for bb, t in fb.calls() if cname(t).endswith('TypeId::of')]
+        okt = bool(keyed) and len(tid) >= 1 and all('TypeLookup' in ' '.join(t.get('substs', [])) for t in tid)
+        for t, ai in keyed:
+            ko = origin(fb, t['args'][ai])
+            okt = okt and any(c in tid for c in ko.calls)
+        ctx.ob('REGFIRST', 'keyed-by-type-lookup', okt, short_loc(fb.span), 'already_built_types is keyed by TypeId::of::<T::TypeLookup>() at each of its %d access(es): %s' % (len(keyed), okt))
 
     # ---- OWNFIRST
     containers = {'alloc::vec::Vec<T>': 'Array', 'core::option::Option<T>': 'Union', 'std::collections::hash::map::HashMap<S, V>': 'Map'}
@@ -210,6 +216,29 @@ def run(ctx):
     inside = [1 for b, bb, own in touch if own]
     ctx.ob('REGOWNER', 'only-find_or_build', not outside and bool(inside), short_loc(fb.span) if fb else None,
            'functions other than find_or_build that reference SchemaBuilder::already_built_types: %s (find_or_build references: %d)' % (outside or 'none', len(inside)))
+
+    # ---- HASHFN: hash_type_id appends a digest of the TypeId (and of nothing else) to the name it is given
+    hb = [b for b in f.body_list if fn_label(b) == 'hash_type_id' and b.j['kind'] != 'closure']
+    ok = False
+    det = 'hash_type_id not found'
+    if hb:
+        b = hb[0]
+        ctx.touched(b, len(b.calls()))
+        hcalls = [(bb, t) for bb, t in b.calls() if (t.get('callee') or '') == 'core::hash::Hash::hash']
+        fin = [(bb, t) for bb, t in b.calls() if (t.get('callee') or '') == 'core::hash::Hasher::finish']
+        wr = [(bb, t) for bb, t in b.calls() if (t.get('callee') or cname(t)).endswith(('Write::write_fmt', 'String::push_str', 'Write::write_str'))]
+        fed_by_tid = len(hcalls) == 1 and (b.id, 2) in c20gen.slice_back(b, hcalls[0][1]['args'][0]).params
+        same_hasher = bool(hcalls) and len(fin) == 1 and c20gen.ref_base(b, hcalls[0][1]['args'][1]) == c20gen.ref_base(b, fin[0][1]['args'][0]) \
+            and b.dominates(hcalls[0][0], fin[0][0])
+        written = False
+        for bb, t in wr:
+            tgt = c20gen.slice_back(b, t['args'][0])
+            src = c20gen.slice_back(b, t['args'][1])
+            if (b.id, 1) in tgt.params and fin and any(c[2] is fin[0][1] for c in src.calls):
+                written = True
+        ok = fed_by_tid and same_hasher and written
+        det = 'hasher fed by the TypeId argument only: %s; finish() of that hasher after feeding: %s; digest written into the name argument: %s' % (fed_by_tid, same_hasher, written)
+    ctx.ob('HASHFN', 'hash_type_id', ok, short_loc(hb[0].span) if hb else None, det)
 
     # ---- macro side, on the corpus
     c20gen.run(ctx)
